@@ -5,19 +5,12 @@
 From Coq Require Import ZArith Reals Floats Lia Lra List Bool Arith.
 From Flocq Require Import Core.Core IEEE754.BinarySingleNaN IEEE754.PrimFloat.
 From OV Require Import Base.Panic Base.Arith gen.Params Model.Poly Proofs.Poly Proofs.PolyDiv Proofs.ParDotFloat
-                       Proofs.VectorFloat2 Inst.FloatInst Proofs.PolyExact Proofs.PolyExactF Proofs.PolyExactDiv.
+                       Proofs.VectorFloat2 Inst.FloatInst Proofs.PolyExtra Proofs.PolyExact Proofs.PolyExactF Proofs.PolyExactDiv Proofs.PolyExactDivZ.
 Import ListNotations.
 Local Open Scope Z_scope.
 
 Lemma ExactW_eqb0 (x : AF) (a : AZ) : ExactW x a -> eqb x zero = eqb a zero.
 Proof. intros H. exact (ExactW_eqb x 0%float a 0 H (proj1 Exact_zero)). Qed.
-
-Lemma z_div_Ok a b c : z_div a b = Ok c -> b <> 0 /\ a = b * c.
-Proof.
-  unfold z_div. destruct (Z.eqb_spec b 0) as [|Hb]; [discriminate|].
-  destruct (Z.eqb_spec (a mod b) 0) as [Hm|]; [|discriminate]. intros E; injection E as <-.
-  split; auto. rewrite (Z.div_mod a b Hb) at 1. lia.
-Qed.
 
 Lemma ExactW_zdiv (x y : AF) (a b c : AZ) : ExactW x a -> ExactW y b -> div a b = Ok c -> Z.abs c < 2 ^ 53 ->
   exists z, div x y = Ok z /\ ExactW z c.
@@ -36,4 +29,37 @@ Proof.
   intros Hu Hv Hf E.
   destruct (gen_polydiv _ _ EL_weak ExactW_eqb0 ExactW_zdiv u v uz vz _ Hu Hv Hf E) as (o & Eo & Ro).
   destruct o as [[q r]|e]; [|contradiction]. exists q, r. split; [exact Eo|]. exact Ro.
+Qed.
+
+(* the headline: a divisor with leading coefficient +1 or -1.  The integer division always goes through, the float
+   division returns its images, and that pair is THE quotient and remainder of u by v over the integers.
+   Sufficient size condition in terms of the inputs: |u_i| <= U, |v_j| <= V, U (1+V)^(len u - len v + 1) < 2^53. *)
+Lemma polydiv_exact_float_monic_lemma (u v : list PrimFloat.float) (uz vz : list Z) (U V : Z) :
+  Forall2 ExactW u uz -> Forall2 ExactW v vz -> vz <> [] -> (last vz 0 = 1 \/ last vz 0 = -1) ->
+  0 <= U -> Forall (fun a => Z.abs a <= U) uz -> Forall (fun b => Z.abs b <= V) vz ->
+  (length uz <= POLYDIV_MAX)%nat ->
+  U * (1 + V) ^ Z.of_nat (length uz - length vz + 1) < 2 ^ 53 ->
+  exists q r q0 r0, polydiv (A := AF) u v = Ok (inl (q, r)) /\ Forall2 ExactW q q0 /\ Forall2 ExactW r r0 /\
+    polydiv (A := AZ) uz vz = Ok (inl (q0, r0)) /\
+    (forall k, nth k uz 0 = nth k (padd (A := AZ) (pmul (A := AZ) q0 vz) r0) 0) /\
+    (is_zero (A := AZ) r0 = true \/ (length r0 < length vz)%nat) /\
+    (forall q1 r1 : list Z,
+       (forall k, nth k uz 0 = nth k (padd (A := AZ) (pmul (A := AZ) q1 vz) r1) 0) ->
+       (is_zero (A := AZ) r1 = true \/ (length r1 < length vz)%nat) ->
+       (forall k, nth k q0 0 = nth k q1 0) /\ (forall k, nth k r0 0 = nth k r1 0)).
+Proof.
+  intros Hu Hv Nv Lead U0 HU HV Lu HB.
+  assert (V0 : 0 <= V).
+  { destruct vz as [|b t]; [congruence|]. inversion HV; subst. pose proof (Z.abs_nonneg b). lia. }
+  assert (Lnz : last vz 0 <> 0) by (destruct Lead as [E|E]; rewrite E; discriminate).
+  assert (Zv : is_zero (A := AZ) vz = false).
+  { destruct (is_zero (A := AZ) vz) eqn:Z; [|reflexivity]. exfalso. apply Lnz.
+    rewrite <- nth_last_idx. exact (proj1 (is_zero_spec_lemma AZ_eqb_spec vz) Z _). }
+  pose proof (Forall_cb V vz V0 HV) as CV. pose proof (Forall_cb U uz U0 HU) as CU.
+  destruct (polydiv_total_gen (A := AZ) eq_refl uz vz Nv Zv (monic_div_lead vz Lead) Lu) as (q0 & r0 & E0 & Hr0).
+  pose proof (polydiv_fits_monic vz Nv Lead V CV uz U U0 CU HB) as Hf.
+  destruct (polydiv_exact_float_run_lemma u v uz vz q0 r0 Hu Hv Hf E0) as (q & r & E & Hq & Hr).
+  destruct (polydiv_Z_identity_lemma uz vz q0 r0 E0) as [Id Sm].
+  exists q, r, q0, r0. repeat (split; [assumption|]).
+  intros q1 r1 Id1 Sm1. exact (polydiv_Z_unique_lemma uz vz q0 r0 q1 r1 Nv Lnz Id Sm Id1 Sm1).
 Qed.
